@@ -80,6 +80,9 @@ func NewEnv(cfg Config, seed int64, dir string) (*Env, error) {
 		switch cfg.FS {
 		case "simfs", "":
 			e.SimFS = simfs.New(e.Clock.Now, mtimeRes(cfg.MtimeRes))
+			if cfg.DirOrder {
+				e.SimFS.DirSeed = uint64(seed)*2 + 1
+			}
 			e.baseFs = e.SimFS
 		case "memmap":
 			e.baseFs = &clockFs{Fs: afero.NewMemMapFs(), now: e.Clock.Now}
